@@ -38,11 +38,11 @@ def install_decoders(eng, T):
     for k, (name, (_, dotted)) in enumerate(T):
         def dec(e, st, args, kw, ctx, node, k=k):
             a = st.fork(); a.pc.append(OUT[k] == 0); b = st.fork(); b.pc.append(OUT[k] != 0)
-            return [(x, y) for x, y in ((a, ADict(DV[k])), (b, Raised(REJ, f"decoder {k}"))) if e.feasible(x)]
+            return [(x, y) for x, y in ((a, ADict(DV[k])), (b, Raised(REJ, f"decoder {k}", {REJ[0]: OUT[k] == 1, REJ[1]: OUT[k] == 2}))) if e.feasible(x)]
         eng.py_calls[dotted] = dec
     def dec_r(e, st, args, kw, ctx, node):
         a = st.fork(); a.pc.append(OUT_R == 0); b = st.fork(); b.pc.append(OUT_R != 0)
-        return [(x, y) for x, y in ((a, ADict(DV_R)), (b, Raised(REJ, "decode_p1_readout"))) if e.feasible(x)]
+        return [(x, y) for x, y in ((a, ADict(DV_R)), (b, Raised(REJ, "decode_p1_readout", {REJ[0]: OUT_R == 1, REJ[1]: OUT_R == 2}))) if e.feasible(x)]
     eng.py_calls["han.dlde.decode_p1_readout"] = dec_r
 
 def selection_post(N, isn0, pv0, res, new, out_of, dv_of):
@@ -79,7 +79,8 @@ def autodecoder_obligations(eng):
             st.pc += [z3.Implies(z3.Not(isn), z3.And(pv >= 0, pv < N))]; return st.new_obj(A, {F: SOpt(isn, pv)})
         st.pc += [isn == z3.BoolVal(prev is None), pv == (prev if prev is not None else 0)]
         return st.new_obj(A, {F: prev})
-    wit = lambda m: {"prev": None if z3.is_true(m.eval(isn, model_completion=True)) else m.eval(pv, model_completion=True).as_long(),
+    MSG_VALID = z3.Bool("msg_valid")
+    wit = lambda m: {"msg_valid": z3.is_true(m.eval(MSG_VALID, model_completion=True)), "prev": None if z3.is_true(m.eval(isn, model_completion=True)) else m.eval(pv, model_completion=True).as_long(),
                      "outcomes": [m.eval(OUT[k], model_completion=True).as_long() for k in range(N)], "outcome_readout": m.eval(OUT_R, model_completion=True).as_long(),
                      "empty": [z3.is_true(m.eval(EMPTY(DV[k]), model_completion=True)) for k in range(N)], "empty_readout": z3.is_true(m.eval(EMPTY(DV_R), model_completion=True))}
     # __init__
@@ -109,6 +110,8 @@ def autodecoder_obligations(eng):
     p1_index = [k for k, (nm, _) in enumerate(T) if nm == "P1"]
     def getattr_hook(st, base, attr, ctx, node):
         if isinstance(base, tuple) and base and base[0] == "amsg" and attr == "payload": return [(st, base[1])]
+        # the statement is about every message object: whether the message reports itself valid is arbitrary (one value per message; is_valid is a pure property)
+        if isinstance(base, tuple) and base and base[0] == "amsg" and attr == "is_valid": return [(st, SBool(MSG_VALID))]
         return None
     eng.getattr_hook = getattr_hook
     for shape, payload_of, is_readout in (("payload None", lambda: None, False), ("payload empty", lambda: SBytes(z3.Const("payload", BYTE_ARR), 0), False),
